@@ -56,7 +56,10 @@ def step (st : St) (line : String) : St × String :=
   | ["cfg", a, b, c, d, lim] =>
     match parseBool a, parseBool b, parseBool c, parseBool d, lim.toNat? with
     | some a, some b, some c, some d, some lim =>
-      ({ cfg := ⟨a, b, c, d⟩, pool := Pool.empty (if lim = 0 then rcvTxPoolSize else lim), sigma := [], table := [] }, "ok")
+      -- the hook empties the live pool; which store `executed` and `batch` are bound to survives it
+      ({ cfg := ⟨a, b, c, d⟩,
+         pool := { Pool.empty (if lim = 0 then rcvTxPoolSize else lim) with detached := st.pool.detached, shared := st.pool.shared },
+         sigma := [], table := [] }, "ok")
     | _, _, _, _, _ => (st, "bad-op")
   | ["tx", id, h, s, n, r, g] =>
     match id.toNat?, ofHex? h, ofHex? s, n.toNat?, r.toNat?, g.toNat? with
@@ -99,8 +102,25 @@ def step (st : St) (line : String) : St × String :=
     | _, _, _ => (st, "bad-op")
   | ["unmark", t, e] =>
     match parseIds t >>= idsToTxs st.table, parseIds e >>= idsToTxs st.table with
-    | some t, some _ => ({ st with pool := st.pool.unmark t }, "ok")
+    | some t, some e => ({ st with pool := st.pool.unmarkE t (e.map (·.hash)) }, "ok")
     | _, _ => (st, "bad-op")
+  | ["markz", k, r, t, e, z] =>
+    -- MarkExecuted with record sizes; k = 0: no crash, k > 0: process death before the k-th physical write
+    match k.toNat?, parseIds r >>= idsToTxs st.table, parseIds t >>= idsToTxs st.table, parseIds e >>= idsToTxs st.table, parseIds z with
+    | some k, some r, some t, some e, some z =>
+      if z.length ≠ r.length then (st, "bad-op")
+      else
+        match st.pool.markExecutedZ ((r.map (·.hash)).zip z) t (e.map (·.hash)) (if k = 0 then none else some k) with
+        | (p, ws, res) =>
+          let w := if ws.isEmpty then "-" else ",".intercalate (ws.map toString)
+          ({ st with pool := p }, (match res with | .ok => "ok " | .panic => "PANIC " | .crash => "crash ") ++ w)
+    | _, _, _, _, _ => (st, "bad-op")
+  | ["evq", id] =>
+    match id.toNat? >>= lookupTx st.table with
+    | some t => (st, showBool (st.pool.evicted.contains t.hash))
+    | none => (st, "bad-op")
+  | ["clear"] => ({ st with pool := st.pool.clear }, "ok")
+  | ["restart"] => ({ st with pool := st.pool.restart }, "ok")
   | ["get", id] =>
     match id.toNat? >>= lookupTx st.table with
     | some t =>
